@@ -399,8 +399,9 @@ def _row_existence(prog, cg, eff, chk, B5):
                 continue
             c = children(n)
             cond = c[0]
-            names = [strip(children(x)[0]).get('name') for x in walk(cond) if x.get('kind') == 'CXXMemberCallExpr']
-            refs = [(x.get('referencedDecl') or {}).get('name') for x in walk(cond) if x.get('kind') == 'DeclRefExpr']
+            xcond = list(program.walk_expanded(cond, f.node))
+            names = [strip(children(x)[0]).get('name') for x in xcond if x.get('kind') == 'CXXMemberCallExpr']
+            refs = [(x.get('referencedDecl') or {}).get('name') for x in xcond if x.get('kind') == 'DeclRefExpr']
             throws_then = any(x.get('kind') == 'CXXThrowExpr' for x in walk(c[1]))
             returns_then = any(x.get('kind') == 'ReturnStmt' for x in walk(c[1]))
             # throw follows the if (guard returns early) ?
@@ -416,7 +417,7 @@ def _row_existence(prog, cg, eff, chk, B5):
                 ok = True
                 why = 'rows_modified() tested'
             if f.name == 'get_column' and (returns_then and throw_after or throws_then) and \
-                    any('optional' in (x.get('type') or '') for x in walk(cond)):
+                    any('optional' in (x.get('type') or '') for x in xcond):
                 ok = True
                 why = 'result presence tested'
         if writes or f.name == 'get_column':
